@@ -88,14 +88,17 @@ PROPERTIES = {
     "C05": {
         "title": "node-version sets detect later inserts",
         "jobs": [{"bin": "e_nvset", "args": [], "shards": 16}, {"bin": "e_scan", "args": ["iscan"], "shards": 16}, {"bin": "e_scan", "args": ["scan"], "shards": 16},
-                 {"bin": "h_tree", "args": ["phantom", "--oracle", "phantom", "--only", ";put("], "shards": 8}],
+                 {"bin": "h_tree", "args": ["phantom", "--oracle", "phantom", "--only", ";put("], "shards": 8},
+                 {"bin": "h_tree", "args": ["lin", "--oracle", "phantom", "--only", "get(", "--skip", "remove("], "shards": 16}],
         "accept": r"nvset|phantom:|crash",
-        "deadline": {"quick": 120, "thorough": 600},
+        "deadline": {"quick": 150, "thorough": 900},
         "rule": "exhaustive product (tree, read, absent key of the covered interval), each on a fresh replay: read (scan with every range/max_size/"
                 "direction, get-miss, iscan consumed for 1, 2, 4 or all entries), collect the set, insert, compare every recorded pair; plus "
                 "non-emptiness of the set on the whole C03/C10 argument domain; non-trivial = case whose key lies in the covered interval; "
                 "sets collected under concurrency: every schedule (preemption bound 2) of a narrow scan racing a writer that removes all "
-                "in-range keys and inserts an out-of-range key into the same node, followed by a probe insert of every absent key of the interval",
+                "in-range keys and inserts an out-of-range key into the same node, followed by a probe insert of every absent key of the interval; "
+                "get-miss versions collected under concurrency: every schedule (bound 2) of get vs put / unique put (same and other keys, all lin shapes): "
+                "if the key is stored at the end the checked version must be stale, else a probe insert of the key must make it stale",
         "assumptions": ["product part: quiescent tree, one session"] + SC_ASSUME,
     },
     "C08": {
